@@ -6,7 +6,7 @@ import itertools
 from ..flow import Client, Engine
 from ..front import AnalysisError, dotted, fname, is_self_attr, src, walk_no_nested, ancestors
 from ..kind import KindEngine, Seeds
-from ..sym import BoolTracker, eval_bool, tree_atoms
+from ..sym import BoolTracker, eval_bool, tree_atoms, Canon, Poly
 
 LEVEL = "other"
 OPT = "desolver/utilities/optimizer.py"
@@ -70,6 +70,7 @@ def run(repo, run, tier):
     shape(repo, run)
     acceptance(repo, run)
     step_norm_freshness(repo, run)
+    residual_bounds(repo, run)
 
 
 # ------------------------------------------------------------------------------------------------
@@ -409,3 +410,51 @@ def step_norm_freshness(repo, run):
             if not ok:
                 run.report("C15.5", OPT, (in_loop[0][0] if in_loop else defs[0][0]), "%s: the step norm `%s` read by the success expression is not the norm of the current iteration's step: %s; "
                                                                                     "success by step size can then be claimed at a point that was never moved (e.g. the initial guess)" % (q, nm, why))
+
+
+# ------------------------------------------------------------------------------------------------
+def residual_bounds(repo, run):
+    """'at which the function is small (within a modest multiple of the tolerance)': the residual tests that establish success compare a residual norm with a bound
+    that depends on the TOLERANCE only -- c*tol with a modest constant, or the dtype's tolerance epsilon -- never on run-time quantities such as the residual at
+    the initial guess (then any point counts as a solution if the start was bad enough)"""
+    from ..sym import inline_locals
+    from .. import extract
+    rid = run.rule("C15.7", "every residual test in a success expression of hybrj / newtontrustregion / nonlinear_roots has the form ||F|| < c*tol (0 < c <= 32) or "
+                            "||F|| <= tol_epsilon(dtype): the bound contains no run-time quantity", floor=4)
+    n = 0
+    for q in ("hybrj", "newtontrustregion", "nonlinear_roots"):
+        fn = repo.get(OPT, q)
+        env = inline_locals(fn)
+        c = Canon(env={})
+        for st in ast.walk(fn):
+            if not (isinstance(st, ast.Assign) and src(st.targets[0]) == "success"):
+                continue
+            for cmp_ in [x for x in ast.walk(st.value) if isinstance(x, ast.Compare) and len(x.ops) == 1]:
+                l, r, op = cmp_.left, cmp_.comparators[0], cmp_.ops[0]
+                if isinstance(op, (ast.Gt, ast.GtE)):
+                    l, r = r, l
+                elif not isinstance(op, (ast.Lt, ast.LtE)):
+                    continue
+                lt = src(l)
+                is_res = (isinstance(l, ast.Name) and (l.id.startswith("Fn") or l.id in ("prec", "res_norm"))) or (
+                    isinstance(l, ast.Call) and (fname(l) or "").split(".")[-1] == "norm" and l.args and ("F" in src(l.args[0]) or "fun" in src(l.args[0])))
+                if not is_res:
+                    continue
+                n += 1
+                bound = extract._subst(r, env)
+                ok = False
+                if isinstance(bound, ast.Call) and fname(bound) in ("tol_epsilon", "epsilon"):
+                    ok = True
+                else:
+                    p = c.poly(bound)
+                    tol = Poly.atom("tol")
+                    if set(p) == {("tol",)}:
+                        k = p[("tol",)]
+                        ok = 0 < k <= 32
+                run.judged(rid, "%s: %s  [bound %s]" % (q, src(cmp_)[:70], src(bound)[:50]), ok=ok)
+                if not ok:
+                    run.report("C15.7", OPT, cmp_, "%s: the residual test `%s` compares with `%s`, which is not a modest constant multiple of the tolerance: with a run-time factor "
+                                                   "(e.g. the residual at the initial guess) success is claimed at points whose residual is far above the tolerance, including "
+                                                   "systems that have no solution" % (q, src(cmp_)[:60], src(bound)[:60]))
+    if n == 0:
+        raise AnalysisError("nonlinear solvers: no residual test found in a success expression")
